@@ -236,6 +236,8 @@ class Session:
         kinds = {"vacuity:assumptions-satisfiable": "sat-required"}
         conds = {"vacuity:assumptions-satisfiable": TRUE}
 
+        self.label_cond = conds
+
         def add(label, cond, kind):
             base = label
             n = 1
@@ -470,16 +472,55 @@ def run_session_spec(spec):
             sess.vm.loop_bound = spec["loop_bound"]
         sess.build()
         res = sess.discharge()
+        known = [k for k in spec.get("known", []) if k.get("status") == "open"
+                 and k.get("session_contains", "") in spec["name"]]
+
+        def finish(label, replay):
+            rec = {"label": label, "verdict": "sat", "replay": replay}
+            nat = sess.replay_native(replay)
+            rec["native_failed"] = nat["failed"]
+            rec["native_error"] = nat.get("error")
+            rec["reproduced"] = (label in nat["failed"]) or bool(
+                nat.get("error") and label.startswith("uncaught") and nat["error"].split(":")[0] in label)
+            for k in known:
+                if k.get("label") == label and all(replay.get(n) in (v if isinstance(v, list) else [v])
+                                                   for n, v in k.get("when", {}).items()):
+                    rec["known"] = k.get("what", label)
+            return rec
+
+        def when_formula(k):
+            parts = []
+            for n, v in k.get("when", {}).items():
+                kind, payload = sess.vm.symvars.get(n, (None, None))
+                if kind != "choice":
+                    return FALSE
+                allowed = v if isinstance(v, list) else [v]
+                parts.append(OR(*[b for b, i in payload if i in allowed]))
+            return AND(*parts)
         for label, verdict, replay in res:
-            rec = {"label": label, "verdict": verdict}
-            if verdict == "sat":
-                rec["replay"] = replay
-                nat = sess.replay_native(replay)
-                rec["native_failed"] = nat["failed"]
-                rec["native_error"] = nat.get("error")
-                rec["reproduced"] = (label in nat["failed"]) or bool(
-                    nat.get("error") and label.startswith("uncaught") and nat["error"].split(":")[0] in label)
+            if verdict != "sat":
+                out["results"].append({"label": label, "verdict": verdict})
+                continue
+            rec = finish(label, replay)
             out["results"].append(rec)
+            # a listed finding must not hide a different violation of the same obligation: ask again without it
+            rounds = 0
+            while rec.get("known") and rounds < 4:
+                rounds += 1
+                cond = sess.label_cond.get("check:" + label)
+                if cond is None:
+                    break
+                excl = AND(*[NOT(when_formula(k)) for k in known if k.get("label") == label])
+                v = sess.solve_many([(f"check:{label} (known findings excluded)", AND(cond, excl))])
+                vv = list(v.values())[0]
+                if vv == "unsat":
+                    break
+                if vv != "sat":
+                    out["inconclusive"] = f"query for {label!r} without the known findings is {vv}"
+                    break
+                m = sess._model(AND(cond, excl))
+                rec = finish(label, sess.replay_of(m))
+                out["results"].append(rec)
         out["stats"] = sess.stats()
         out["queries"] = sess.queries
         out["functions"] = functions_encoded(sess.vm)
@@ -517,6 +558,8 @@ def _strkeys(x):
 
 
 def run_sessions(specs, workers=None):
+    for sp in specs:
+        sp.setdefault("known", load_known(sp.get("property") or ""))
     if workers is None:
         workers = min(len(specs), max(1, NCPU // 3))
     if len(specs) == 1 or workers == 1:
@@ -579,9 +622,9 @@ class Report:
                     self._write_replay(r, rec, "-unreproduced")
                     continue
                 desc = describe(r, rec) if describe else rec["label"]
-                k = self._known_match(r, rec)
-                if k is not None:
-                    self.known_hits.append(k)
+                if rec.get("known"):
+                    if rec["known"] not in self.known_hits:
+                        self.known_hits.append(rec["known"])
                     continue
                 path = self._write_replay(r, rec, "")
                 self.violations.append((rec["label"], path, desc))
